@@ -14,26 +14,43 @@ R1  validate-before-mutate in TrajectoryStore.add (T-ORDER + effects, decided
     the function.  Accepted idioms: the store comes after the last rejection, or
     the path runs through a catch-all handler that restores that attribute
     from a copy saved before the store (or pops the inserted key) and
-    re-raises.
+    re-raises.  The saved copy may be a local, one target of an unpacked
+    display, element k of a saved display (`saved[k]`) or field f of a saved
+    record (`plan.f`, the record built once by a constructor call), restored
+    in the handler or in a helper that is handed the copy / the record.
 R1b a rejection that judges the trajectory's own data (a missing required
     value: a raise control-dependent on `<field>.required` and a None test) is
     reachable in the write path after earlier fields of the same record were
     already written to the file; so the same rejection must have been decided,
     on every path, before the first mutation, in `add` or in a helper it calls
-    first, and that pre-validation must not walk state that is only populated
-    later in the same call.
+    first (also when the raise depends on the verdict of a resolved helper:
+    `missing = self._first_missing(t); if missing is not None: raise`), that
+    pre-validation must not be conditional on state that is only populated
+    later in the same call, and the loop that walks the fields may be left
+    early (`return` / `break`) only with the verdict "required and missing".
 R1c the three documented rejections are decided before the first mutation
     (write mode, schema, identifier use), recognised by what their conditions
-    read (control dependence + single-definition locals), wherever they live.
+    read (control dependence + single-definition locals), wherever they live;
+    none of them is conditional on state that add itself populates later in the
+    same call, other than the attribute the rejection is about (an identifier
+    check made only when the trajectory cache is non-empty is skipped for the
+    first addition of an append session).
 R2  validate-before-mutate in merge: no `raise` of merge, or of a validation
     helper it calls, is reachable after a file-system effect; no callee that
-    runs after an effect can still refuse the merge's inputs.
-R3  the metadata file (the write-mode open of the `*.json` that readers
-    require) is written last: every other file-system effect precedes it and
-    none follows it, in merge and inside the helper that writes it.
-R4  inputs are relocated only by os.rename (zero-expected + positive control);
-    after the first input has been moved nothing on any path, handlers
-    included, deletes or copies anything.
+    runs after an effect can still refuse the merge's inputs; the same inside
+    a builder that merge hands the checked inputs to (at every level of the
+    call chain: no refusal after an effect of that level).
+R3  the metadata file (the write-mode open / write_text of the `*.json` that
+    readers require; the file name followed through constants, locals and
+    accessor properties of repository classes) is written last: at every level
+    of the call chain from merge to the function that opens it, every other
+    file-system effect precedes the step that writes it and none follows; no
+    handler - in merge or inside a callee that runs before the write - catches
+    the failure of a file-system step without passing it on.
+R4  inputs are relocated only by os.rename / Path.rename (zero-expected +
+    positive control); after the first input has been moved nothing on any
+    path, handlers included, deletes or copies anything (decided in the
+    function that deletes).
 R5  a value cached lazily from the container's field definitions is reset
     wherever those definitions are rebound (the schema check compares it).
 R6  the trajectory cache refuses an eviction before removing anything.
@@ -50,7 +67,7 @@ from ..astutil import (MUTATING_METHODS, ancestors, call_name, calls_in, guards_
 from ..cfg import CFG
 from ..effects import Effects, fs_effect_of_call
 from ..loader import dotted_name
-from ..resolve import closure, resolve_call, self_attr_stores
+from ..resolve import closure, expr_class, resolve_call, self_attr_stores
 
 STORE = 'trajectories/store.py'
 
@@ -144,8 +161,9 @@ class Conditions:
     """conditions a statement of fn is control-dependent on (transitively, inside fn): syntactic guards plus the
     CFG's control dependence (guard clauses with `continue` / early `return`), and what those conditions read"""
 
-    def __init__(self, fn):
+    def __init__(self, fn, prog=None):
         self.fn = fn
+        self.prog = prog
         self.g = CFG(fn.node)
 
         def eo(a, b, lab):
@@ -218,26 +236,44 @@ class Conditions:
         return out
 
     def reads(self, stmt) -> dict:
-        """what the conditions of stmt read, single-definition locals resolved"""
-        fn = self.fn
-        exprs = [t for t, _, _ in self.controlling(stmt)]
+        """what the conditions of stmt read: single-definition locals resolved, and a condition that is the verdict
+        of a resolved helper (`missing = self._first_missing(t)` / `if not self._acceptable(t): raise`) reads what
+        the helper's returned values and the conditions of its returns read"""
+        exprs = [(t, self.fn) for t, _, _ in self.controlling(stmt)]
         seen_names = set()
+        opened = {(self.fn.file, self.fn.qualname)}
+        helpers = []
         i = 0
-        while i < len(exprs) and i < 60:
-            for x in ast.walk(exprs[i]):
-                if isinstance(x, ast.Name) and x.id not in seen_names:
-                    seen_names.add(x.id)
+        while i < len(exprs) and i < 120:
+            e, fn = exprs[i]
+            for x in ast.walk(e):
+                if isinstance(x, ast.Name) and (fn.qualname, x.id) not in seen_names:
+                    seen_names.add((fn.qualname, x.id))
                     v = single_def_value(fn.node, x.id)
                     if v is not None:
-                        exprs.append(v)
+                        exprs.append((v, fn))
                     else:
                         # a loop target: what it iterates over
                         for d in local_defs(fn.node, x.id):
                             if isinstance(d, (ast.For, ast.AsyncFor)):
-                                exprs.append(d.iter)
+                                exprs.append((d.iter, fn))
+                elif isinstance(x, ast.Call) and self.prog is not None and len(opened) < 6:
+                    callee = resolve_call(self.prog, fn, x)
+                    if callee is None or (callee.file, callee.qualname) in opened or callee.name == '__init__':
+                        continue
+                    opened.add((callee.file, callee.qualname))
+                    cc = Conditions(callee, self.prog)
+                    helpers.append(cc)
+                    for r in walk_no_nested(callee.node):
+                        if isinstance(r, ast.Return):
+                            if r.value is not None:
+                                exprs.append((r.value, callee))
+                            exprs += [(t, callee) for t, _, _ in cc.controlling(r)]
             i += 1
+        seen_names = {n for _, n in seen_names}
+        exprs = [e for e, _ in exprs]
         r = {'attrs': set(), 'self_attrs': set(), 'consts': set(), 'none_test': False, 'hash_cmp': False, 'names': seen_names,
-             'calls': set()}
+             'calls': set(), 'opened': [c.fn for c in helpers]}
         for e in exprs:
             for x in ast.walk(e):
                 if isinstance(x, ast.Attribute):
@@ -305,7 +341,6 @@ def rule_add(ctx, fn=None, as_host=False):
                 rs = eff.call_raises(fn, c)
                 if rs:
                     rejections[n.id] = f'call {call_name(c)} (may reject: {len(rs)} explicit raise(s) in its closure)'
-    ctx.floor('C10-R1/rejections' + ('/host' if as_host else ''), len(rejections), 2 if as_host else 4, f'rejection points in {fn.name}')
 
     muts: dict[int, list] = {}
     restores: dict[int, list] = {}
@@ -338,6 +373,11 @@ def rule_add(ctx, fn=None, as_host=False):
                 helper_restores[n.id] = via_helper
         else:
             muts[n.id] = ms
+    # add itself has four rejection points (write mode, schema, identifier use, the write path); when the work is split
+    # over methods the checks may all sit behind one call
+    was_split = any(how.startswith('split-') for ms in muts.values() for _, how, _ in ms)
+    ctx.floor('C10-R1/rejections' + ('/host' if as_host else ''), len(rejections), 2 if as_host else 3 if was_split else 4,
+              f'rejection points in {fn.name}')
     content_muts = {nid: [x for x in ms if x[0] not in NOT_CONTENT] for nid, ms in muts.items()}
     content_muts = {k: v for k, v in content_muts.items() if v}
     ctx.floor('C10-R1' + ('/host' if as_host else ''), sum(len(v) for v in content_muts.values()), 3,
@@ -345,14 +385,52 @@ def rule_add(ctx, fn=None, as_host=False):
 
     dom = g.dominators(edge_ok=normal)
 
-    def saved_copy_of(name: str, attr: str):
-        """the binding `name = self.attr` when it is taken before every mutation of attr, else a reason"""
-        d = single_def_value(fn.node, name)
-        if d is None:
-            from ..astutil import tuple_def_component
-            tc = tuple_def_component(fn.node, name)
-            if tc is not None and isinstance(tc[0], (ast.Tuple, ast.List)) and tc[1] < len(tc[0].elts):
-                d = tc[0].elts[tc[1]]
+    def component(v: ast.expr, depth=0):
+        """the expression whose value the restored expression v holds: a single-definition local, one target of an
+        unpacked display, element k of a saved display (`saved[k]`), field f of a saved record (`saved.f`, the record
+        built once by a constructor call with that keyword or, for a resolved record class, at that position)"""
+        from ..astutil import tuple_def_component
+        if depth > 4:
+            return None
+        if isinstance(v, ast.Name):
+            d = single_def_value(fn.node, v.id)
+            if d is None:
+                tc = tuple_def_component(fn.node, v.id)
+                if tc is not None:
+                    src = tc[0] if isinstance(tc[0], (ast.Tuple, ast.List)) else component(tc[0], depth + 1)
+                    if isinstance(src, (ast.Tuple, ast.List)) and tc[1] < len(src.elts) and \
+                            not any(isinstance(e, ast.Starred) for e in src.elts):
+                        d = src.elts[tc[1]]
+            if isinstance(d, (ast.Name, ast.Subscript)) or (isinstance(d, ast.Attribute) and dotted_name(d.value) != 'self'):
+                return component(d, depth + 1) or d
+            return d
+        if isinstance(v, ast.Subscript) and isinstance(v.value, ast.Name) and isinstance(v.slice, ast.Constant) \
+                and isinstance(v.slice.value, int):
+            src = single_def_value(fn.node, v.value.id)
+            if isinstance(src, (ast.Tuple, ast.List)) and 0 <= v.slice.value < len(src.elts) and \
+                    not any(isinstance(e, ast.Starred) for e in src.elts):
+                return src.elts[v.slice.value]
+            return None
+        if isinstance(v, ast.Attribute) and isinstance(v.value, ast.Name) and v.value.id != 'self':
+            src = single_def_value(fn.node, v.value.id)
+            if isinstance(src, ast.Call) and not any(k.arg is None for k in src.keywords) and \
+                    not any(isinstance(a, ast.Starred) for a in src.args):
+                for k in src.keywords:
+                    if k.arg == v.attr:
+                        return k.value
+                rc = prog.resolve_class_expr(fn.module, src.func)
+                if rc is not None:
+                    names = list(rc.annotated_fields())
+                    if v.attr in names and names.index(v.attr) < len(src.args):
+                        return src.args[names.index(v.attr)]
+            return None
+        return None
+
+    def saved_copy_of(v, attr: str):
+        """the saved value `self.attr` that expression v holds, when it was taken before every mutation of attr; else
+        a reason"""
+        name = norm(v) if not isinstance(v, str) else v
+        d = component(ast.Name(id=v) if isinstance(v, str) else v)
         if d is None or not (isinstance(d, ast.Attribute) and d.attr == attr and dotted_name(d.value) == 'self'):
             return None, f'{name} is not a copy of self.{attr} saved before the store'
         dnode = g.nodes_of(stmt_of(d))
@@ -373,11 +451,20 @@ def rule_add(ctx, fn=None, as_host=False):
                     if a2 != attr:
                         continue
                     v = getattr(st2, 'value', None)
-                    if how2 == 'assign' and isinstance(v, ast.Name) and v.id in callee.params:
-                        idx = callee.params.index(v.id) - 1
-                        arg = c.args[idx] if 0 <= idx < len(c.args) else next((k.value for k in c.keywords if k.arg == v.id), None)
-                        if isinstance(arg, ast.Name):
-                            d, why = saved_copy_of(arg.id, attr)
+                    # `self.attr = p` / `= p[k]` / `= p.field` with p a parameter: the argument, seen from the caller
+                    base = v.value if isinstance(v, (ast.Attribute, ast.Subscript)) else v
+                    if how2 == 'assign' and f is callee and isinstance(base, ast.Name) and base.id in callee.params:
+                        idx = callee.params.index(base.id) - (1 if callee.params[:1] in (['self'], ['cls']) else 0)
+                        arg = c.args[idx] if 0 <= idx < len(c.args) else next((k.value for k in c.keywords if k.arg == base.id), None)
+                        if arg is not None and v is not base and isinstance(arg, ast.Name):
+                            import copy
+                            v2 = copy.deepcopy(v)
+                            v2.value = ast.Name(id=arg.id, ctx=ast.Load())
+                            arg = v2
+                        elif v is not base:
+                            arg = None
+                        if arg is not None:
+                            d, why = saved_copy_of(arg, attr)
                             return d is not None, why + f' (through {callee.qualname})'
                     if how2 in ('call-pop', 'elem-del', 'call-discard', 'call-remove'):
                         return True, f'inserted key removed again (through {callee.qualname})'
@@ -397,16 +484,13 @@ def rule_add(ctx, fn=None, as_host=False):
                                 return False, f'saved copy {v.id} is not taken before the store at line {int(g.nodes[mid].line)}'
                         return True, f'restored from {v.id}[{pos}] = self.{attr} saved before the store'
                 return False, f'{v.id}[{pos}] is not a copy of self.{attr} saved before the store'
-            if isinstance(v, (ast.Tuple, ast.List)) and pos < len(v.elts) and isinstance(v.elts[pos], ast.Name):
-                d, why = saved_copy_of(v.elts[pos].id, attr)
+            if isinstance(v, (ast.Tuple, ast.List)) and pos < len(v.elts):
+                d, why = saved_copy_of(v.elts[pos], attr)
                 return d is not None, why
             return False, f'value restored into self.{attr} is not a copy saved before the store'
         if how in ('assign',):
-            v = st.value
-            if isinstance(v, ast.Name):
-                d, why = saved_copy_of(v.id, attr)
-                return d is not None, why
-            return False, f'value restored into self.{attr} is not a copy saved before the store'
+            d, why = saved_copy_of(st.value, attr)
+            return d is not None, why
         if how in ('call-pop', 'elem-del', 'call-discard', 'call-remove'):
             ins_keys = {k for mid, ms in content_muts.items() for a, h2, k in ms
                         if a == attr and h2.startswith('elem-')}
@@ -482,7 +566,7 @@ def rule_add(ctx, fn=None, as_host=False):
     def cond_of(fn):
         k = (fn.file, fn.qualname)
         if k not in conds:
-            conds[k] = Conditions(fn)
+            conds[k] = Conditions(fn, prog)
         return conds[k]
 
     early, late = [], []     # (function, raise stmt, reads, anchor nodes in add, call text)
@@ -537,6 +621,29 @@ def rule_add(ctx, fn=None, as_host=False):
             for mid, ms in content_muts.items():
                 for a_, _, _ in ms:
                     later.setdefault(a_, f'add itself (line {int(g.nodes[mid].line)})')
+            # ... and it must judge every field: the loop that walks the fields is left early only with the verdict
+            for f in [pfn] + [h for h in prd['opened'] if h is not pfn]:
+                for L in walk_no_nested(f.node):
+                    if not isinstance(L, (ast.For, ast.AsyncFor, ast.While)):
+                        continue
+                    if not ((f is pfn and any(a is L for a in ancestors(pr))) or
+                            any(isinstance(a, ast.Attribute) and a.attr == 'required' for a in ast.walk(L))):
+                        continue
+                    for x in (y for b in L.body for y in [b] + list(walk_no_nested(b))):
+                        if isinstance(x, ast.Break):
+                            inner = next((a for a in ancestors(x) if isinstance(a, (ast.For, ast.AsyncFor, ast.While))), None)
+                            if inner is not L:
+                                continue
+                        elif not isinstance(x, ast.Return):
+                            continue
+                        xr = cond_of(f).reads(x)
+                        ok = _is_required_value_rejection(xr)
+                        ctx.ob('C10-R1b', f, f'`{norm(x)[:40]}` inside the loop over the fields is the verdict on a missing value', ok,
+                               'left early only when a required field has no value' if ok else
+                               (f'the pre-validation loop (line {int(L.lineno)}) is left by `{norm(x)[:40]}` at line {int(x.lineno)} on a condition '
+                                'that is not "required and missing": the fields after that one are never judged, so a trajectory '
+                                'whose missing required value comes later passes the pre-check, is half-written by the write path '
+                                'and the file keeps the record'), line=x.lineno)
             stale = sorted(reads & set(later))
             ctx.ob('C10-R1b', add, f'pre-validation reads {sorted(reads) or "only the argument"}', not stale,
                    'the check depends only on the trajectory being added (and state that exists before the call)'
@@ -549,16 +656,41 @@ def rule_add(ctx, fn=None, as_host=False):
 
     # R1c: documented rejections are decided before the first mutation
     checks = [
-        ('write mode', lambda rd: bool(rd['self_attrs'] & {'_write_enabled', 'mode'})),
-        ('same data fields (schema)', lambda rd: rd['hash_cmp'] or '_data_dictionary' in rd['attrs'] and '_trajectories' in rd['self_attrs']),
-        ('identifier use consistent', lambda rd: 'indexable' in rd['self_attrs'] and ('flight_id' in rd['attrs'] or 'flight_id' in rd['consts'])),
+        ('write mode', lambda rd: bool(rd['self_attrs'] & {'_write_enabled', 'mode'}), {'_write_enabled', 'mode'}),
+        ('same data fields (schema)', lambda rd: rd['hash_cmp'] or '_data_dictionary' in rd['attrs'] and '_trajectories' in rd['self_attrs'],
+         {'_trajectories'}),
+        ('identifier use consistent', lambda rd: 'indexable' in rd['self_attrs'] and ('flight_id' in rd['attrs'] or 'flight_id' in rd['consts']),
+         {'indexable'}),
     ]
-    for what, pred in checks:
-        hit = next((x for x in early if pred(x[2])), None)
+    # state that this very call populates: a rejection that is only made when such state is already there is not made
+    # for the addition that finds it empty (the attribute the rejection is about excepted)
+    later_all = {}
+    for nid, cs in call_nodes.items():
+        if after_mutation(nid):
+            for c, callee in cs:
+                if callee.cls is add.cls:
+                    for fn2 in closure(prog, [callee]):
+                        if fn2.cls is add.cls:
+                            for attr, st, how in self_attr_stores(fn2):
+                                later_all.setdefault(attr, fn2.qualname)
+    for mid, ms in content_muts.items():
+        for a_, _, _ in ms:
+            later_all.setdefault(a_, f'add itself (line {int(g.nodes[mid].line)})')
+    for what, pred, subject in checks:
+        hits = [x for x in early if pred(x[2])]
+        hit = hits[0] if hits else None
         ctx.ob('C10-R1c', add, f'rejection present: {what}', hit is not None,
                f'raise at line {hit[1].lineno} ({hit[0].qualname})' if hit is not None else
                f'add() no longer refuses before it changes the store: {what}', line=(hit[1].lineno if hit else add.node.lineno),
                nontrivial=False)
+        for hfn, hr, hrd, _, _ in hits:
+            extra = sorted((set(hrd['self_attrs']) & set(later_all)) - subject)
+            if extra:
+                ctx.ob('C10-R1c', add, f'rejection [{what}] is not conditional on self.{extra[0]}', False,
+                       (f'the refusal at line {int(hr.lineno)} ({hfn.qualname}) is only made on a condition that reads self.{extra[0]}, '
+                        f'which is populated by {later_all[extra[0]]} later in the same call: for an addition that finds it empty '
+                        '(the first one of a new store, or of an append session on a re-opened file) this refusal is skipped, '
+                        'the trajectory is inserted and written, and the store keeps it'), line=hr.lineno)
     ctx.stats['add_cfg_nodes'] = len(g.nodes)
     ctx.stats['add_rejection_points'] = {g.nodes[k].line: v for k, v in rejections.items()}
     ctx.stats['add_rejections_before_first_mutation'] = len(early)
@@ -568,11 +700,22 @@ def rule_add(ctx, fn=None, as_host=False):
 # ------------------------------------------------------------------------------------------------------------------
 
 def _const_strings(prog, fn, e, depth=0) -> list[str]:
-    """string constants an expression is built from: literals, module constants, single-definition locals"""
+    """string constants an expression is built from: literals, module constants, single-definition locals, and what a
+    property / an accessor method of a repository class (`layout.metadata_file`, `layout.path_of_metadata()`) returns"""
     out = []
     for x in ast.walk(e):
         if isinstance(x, ast.Constant) and isinstance(x.value, str):
             out.append(x.value)
+        elif isinstance(x, ast.Attribute) and depth < 3 and not isinstance(x.value, ast.Constant):
+            try:
+                owner = expr_class(prog, fn, x.value)
+            except Exception:
+                owner = None
+            meth = owner.find_method(x.attr) if owner is not None else None
+            if meth is not None and meth is not fn:
+                for r in walk_no_nested(meth.node):
+                    if isinstance(r, ast.Return) and r.value is not None:
+                        out += _const_strings(prog, meth, r.value, depth + 1)
         elif isinstance(x, ast.Name) and depth < 3:
             v = single_def_value(fn.node, x.id)
             if v is not None:
@@ -589,9 +732,18 @@ COPIES = {'shutil.copy', 'shutil.copy2', 'shutil.copyfile', 'shutil.move', 'shut
 DELETE_METHODS = {'unlink', 'rmdir'}
 
 
+REFUSALS = ('ValueError', 'TypeError', 'RuntimeError', 'KeyError', 'FileExistsError', 'FileNotFoundError',
+            'NotADirectoryError', 'IsADirectoryError')
+
+
 def rule_merge(ctx):
     prog = ctx.prog
     m = prog.module(STORE)
+    pkg = m.relpath.rsplit('/', 1)[0]
+
+    def in_pkg(f) -> bool:
+        """a function of the store's own package (store.py, or a module of the same directory it was moved to)"""
+        return f.file.rsplit('/', 1)[0] == pkg
     merge = m.func('TrajectoryStore.merge')
     eff = Effects(prog)
     g = CFG(merge.node)
@@ -614,6 +766,7 @@ def rule_merge(ctx):
     validation: dict[int, str] = {}
     meta_node = None
     meta_helper = None
+    meta_handed = False
     validators = []
     for n in g.nodes:
         if n.stmt is None or n.kind in ('finally', 'dispatch', 'join', 'except'):
@@ -635,11 +788,11 @@ def rule_merge(ctx):
                     if is_meta_open(merge, c):
                         meta_node = n.id
                     elif callee is not None and meta_in(callee):
-                        meta_node, meta_helper = n.id, callee
+                        meta_node, meta_helper, meta_handed = n.id, callee, False
                     elif callee is not None and any('open(' in e_ or 'write_text' in e_ for e_ in effs) and \
                             any(s_.endswith('.json') for s_ in _const_strings(prog, merge, c)):
                         # the helper opens a path it is handed; the caller names the file
-                        meta_node, meta_helper = n.id, callee
+                        meta_node, meta_helper, meta_handed = n.id, callee, True
                 elif callee is not None and callee.file.endswith(STORE) and eff.explicit_raises(callee) \
                         and callee.name not in ('__init__', 'open', 'create', 'append'):
                     # a helper that only judges: a validation step
@@ -665,16 +818,75 @@ def rule_merge(ctx):
                 if callee is None:
                     continue
                 for h, r in eff.explicit_raises(callee):
-                    if not h.file.endswith(STORE) or r.exc is None:
+                    if not in_pkg(h) or r.exc is None:
                         continue
                     exc = norm(r.exc)
-                    if not exc.startswith(('ValueError', 'TypeError', 'RuntimeError', 'KeyError')):
+                    if not exc.startswith(REFUSALS):
                         continue
                     n_late += 1
                     ctx.ob('C10-R2', merge, f'{callee.name}(…) can refuse with `{exc[:60]}` (in {h.name}, line {r.lineno})', False,
-                           (f'this refusal can only be reached after {fs_nodes[prior[0]][0]} (line {g.nodes[prior[0]].line}) has '
+                           (f'this refusal can only be reached after {fs_nodes[prior[0]][0]} (line {int(g.nodes[prior[0]].line)}) has '
                             'already changed the file system: the merge is refused but the output directory and the moved input '
                             'files stay behind, and the corrected retry fails'), line=r.lineno)
+    # ... and inside a callee that performs the first effects itself (a builder that merge hands the checked inputs
+    # to): at every level, no refusal after an effect of that level
+    def refusals_below(fn, seen):
+        nonlocal n_late
+        k = (fn.file, fn.qualname)
+        if k in seen or len(seen) > 8:
+            return
+        seen.add(k)
+        gx = CFG(fn.node)
+        fsx = {}
+        for n in gx.nodes:
+            if n.stmt is None or n.kind in ('finally', 'dispatch', 'join', 'except'):
+                continue
+            for e in _heads(n):
+                for c in calls_in(e) if e is not None else []:
+                    effs = eff.call_fs(fn, c)
+                    if effs:
+                        fsx.setdefault(n.id, []).extend(effs)
+        for n in gx.nodes:
+            if n.stmt is None or n.kind in ('finally', 'dispatch', 'join', 'except'):
+                continue
+            prior = [f for f in fsx if f != n.id and gx.reaches(f, n.id, edge_ok=normal)]
+            if n.kind == 'stmt' and isinstance(n.stmt, ast.Raise):
+                r = n.stmt
+                if prior and r.exc is not None and norm(r.exc).startswith(REFUSALS) and \
+                        not any(isinstance(a, ast.ExceptHandler) for a in ancestors(r)):
+                    n_late += 1
+                    ctx.ob('C10-R2', fn, f'{fn.name}(…) can refuse with `{norm(r.exc)[:60]}` (line {int(r.lineno)})', False,
+                           (f'this refusal can only be reached after {fsx[prior[0]][0]} (line {int(gx.nodes[prior[0]].line)}) has '
+                            'already changed the file system: the merge is refused but the output directory and the moved input '
+                            'files stay behind, and the corrected retry fails'), line=r.lineno)
+                continue
+            for e in _heads(n):
+                for c in calls_in(e) if e is not None else []:
+                    callee = resolve_call(prog, fn, c)
+                    if callee is None:
+                        continue
+                    if not prior:
+                        if n.id in fsx and eff.fs_effects(callee):
+                            refusals_below(callee, seen)
+                        continue
+                    for h, r in eff.explicit_raises(callee):
+                        if not in_pkg(h) or r.exc is None or not norm(r.exc).startswith(REFUSALS):
+                            continue
+                        n_late += 1
+                        ctx.ob('C10-R2', h, f'{callee.name}(…) can refuse with `{norm(r.exc)[:60]}` (in {h.name}, line {int(r.lineno)})',
+                               False,
+                               (f'this refusal can only be reached after {fsx[prior[0]][0]} (line {int(gx.nodes[prior[0]].line)}, in '
+                                f'{fn.name}) has already changed the file system: the merge is refused but the output directory and '
+                                'the moved input files stay behind, and the corrected retry fails'), line=r.lineno)
+
+    for f in sorted(fs_nodes):
+        if any(f2 != f and g.reaches(f2, f, edge_ok=normal) for f2 in fs_nodes):
+            continue
+        for e in _heads(g.nodes[f]):
+            for c in calls_in(e) if e is not None else []:
+                callee = resolve_call(prog, merge, c)
+                if callee is not None and eff.fs_effects(callee):
+                    refusals_below(callee, {(merge.file, merge.qualname)})
     ctx.ob('C10-R2', merge, f'{n_late} refusal(s) reachable only after a file-system effect', n_late == 0,
            'every explicit refusal of the merge is decided before the first effect' if n_late == 0 else 'see above', nontrivial=False)
     ctx.floor('C10-R2', n_rules, 8, 'merge validation rules')
@@ -690,7 +902,7 @@ def rule_merge(ctx):
             path = [f'L{int(g.nodes[x].line)}: {g.nodes[x].text()[:90]}' for x in p if g.nodes[x].stmt is not None]
         ctx.ob('C10-R2', merge, f'validation [{vwhat}] precedes every file-system effect', ok,
                'no file-system effect can run before this refusal' if ok else
-               (f'file-system effect {fs_nodes[offenders[0]][0]} at line {g.nodes[offenders[0]].line} '
+               (f'file-system effect {fs_nodes[offenders[0]][0]} at line {int(g.nodes[offenders[0]].line)} '
                 f'runs before this refusal (line {int(g.nodes[vid].line)}): a refused merge leaves '
                 'something behind and the corrected retry fails'),
                line=g.nodes[vid].line, path=path)
@@ -719,42 +931,122 @@ def rule_merge(ctx):
             ctx.ob('C10-R3', merge, f'a failure of {effs[0]} cannot be followed by the metadata write', False,
                    'an exception raised by this step is caught and the merge goes on to write the metadata file: the merged '
                    'directory announces itself as complete although this part is missing or half-written', line=g.nodes[f].line)
-    # inside the function that opens the metadata file: the open is its last effect, the body only serialises
-    mfn = merge
-    handed = False
-    if meta_helper is not None:
-        inside = meta_in(meta_helper)
-        if inside:
-            mfn = inside[0][0]
-        else:
-            handed = True
-            mfn = next((f for f in closure(prog, [meta_helper]) for c in calls_in(f.node)
-                        if (fs_effect_of_call(c) or '').startswith(('open(', '.write_text'))), meta_helper)
-    gm = g if mfn is merge else CFG(mfn.node)
+    # below merge: at every level of the call chain that leads to the metadata write (merge -> builder -> ... -> the
+    # function that opens the file) the step that writes the metadata is the last file-system effect of that level;
+    # in the function that opens the file the open is its last effect and the body only serialises
+    def write_open(c) -> bool:
+        return (fs_effect_of_call(c) or '').startswith(('open(', '.write_text', '.write_bytes'))
 
-    def opens_meta(c):
-        return is_meta_open(mfn, c) or (handed and (fs_effect_of_call(c) or '').startswith(('open(', '.write_text')))
-    mopen = [n for n in gm.nodes if any(isinstance(c, ast.Call) and opens_meta(c) for e in _heads(n) if e is not None for c in calls_in(e))]
-    for n in gm.nodes:
-        if mfn is merge or n.stmt is None or n in mopen:
-            continue
-        for e in _heads(n):
-            for c in calls_in(e) if e is not None else []:
-                effs = eff.call_fs(mfn, c)
-                if effs and any(gm.reaches(mo.id, n.id, edge_ok=normal) for mo in mopen):
-                    ctx.ob('C10-R3', mfn, f'{effs[0]} happens before the metadata file is written', False,
-                           'this step can run after the metadata file announced the store complete', line=n.line)
-    for mo in mopen:
-        wstmt = mo.stmt
+    def scan(fn, gx, handed):
+        """file-system effects per CFG node of fn, and the nodes through which the metadata file is written:
+        nid -> (call, callee or None when the open is here, the callee is handed the path)"""
+        fs, metas = {}, {}
+        for n in gx.nodes:
+            if n.stmt is None or n.kind in ('finally', 'dispatch', 'join', 'except'):
+                continue
+            for e in _heads(n):
+                for c in calls_in(e) if e is not None else []:
+                    effs = eff.call_fs(fn, c)
+                    if not effs:
+                        continue
+                    fs.setdefault(n.id, []).extend(effs)
+                    callee = resolve_call(prog, fn, c)
+                    if is_meta_open(fn, c) or (handed and write_open(c)):
+                        metas[n.id] = (c, None, False)
+                    elif callee is not None and meta_in(callee):
+                        metas[n.id] = (c, callee, False)
+                    elif callee is not None and any('open(' in e_ or 'write_text' in e_ or 'write_bytes' in e_ for e_ in effs) and \
+                            (handed or any(s_.endswith('.json') for s_ in _const_strings(prog, fn, c))):
+                        metas[n.id] = (c, callee, True)
+        return fs, metas
+
+    def serialises_only(fn, node):
+        wstmt = node.stmt
         if isinstance(wstmt, ast.With):
             handles = {i.optional_vars.id for i in wstmt.items if isinstance(i.optional_vars, ast.Name)}
             inner = [c for s in wstmt.body for c in calls_in(s)]
             ok = all(call_name(c).split('.')[0] == 'json' or _is_log(c) or
                      (isinstance(c.func, ast.Attribute) and c.func.attr in ('write', 'flush') and isinstance(c.func.value, ast.Name)
                       and c.func.value.id in handles) for c in inner)
-            ctx.ob('C10-R3', mfn, f'metadata body only serialises: {[call_name(c) for c in inner]}', ok,
+            ctx.ob('C10-R3', fn, f'metadata body only serialises: {[call_name(c) for c in inner]}', ok,
                    'only the dump inside the metadata write' if ok else
                    'other work happens while the metadata file is open', line=wstmt.lineno, nontrivial=False)
+
+    def swallowed_in(fn, seen):
+        """(function, line, effect) of a file-system step in the closure of fn whose failure a handler catches without
+        passing it on: fn then returns normally although the step did not happen"""
+        k = (fn.file, fn.qualname)
+        if k in seen or len(seen) > 10:
+            return None
+        seen.add(k)
+        gx = CFG(fn.node)
+        for n in gx.nodes:
+            if n.stmt is None or n.kind in ('finally', 'dispatch', 'join', 'except'):
+                continue
+            for e in _heads(n):
+                for c in calls_in(e) if e is not None else []:
+                    effs = eff.call_fs(fn, c)
+                    if not effs:
+                        continue
+                    if any(lab == 'e' and (b == gx.exit or gx.reaches(b, gx.exit)) for b, lab in gx.succ[n.id]):
+                        return fn, n.line, effs[0]
+                    callee = resolve_call(prog, fn, c)
+                    if callee is not None and eff.fs_effects(callee):
+                        r = swallowed_in(callee, seen)
+                        if r is not None:
+                            return r
+        return None
+
+    def swallow_check(fn, gx, fs, metas):
+        for f, effs in sorted(fs.items()):
+            if f in metas or not any(gx.reaches(f, m_, edge_ok=normal) for m_ in metas):
+                continue
+            for e in _heads(gx.nodes[f]):
+                for c in calls_in(e) if e is not None else []:
+                    callee = resolve_call(prog, fn, c)
+                    r = swallowed_in(callee, {(fn.file, fn.qualname)}) if callee is not None and eff.fs_effects(callee) else None
+                    if r is not None:
+                        ctx.ob('C10-R3', r[0], f'a failure of {r[2]} cannot be followed by the metadata write', False,
+                               (f'an exception raised by this step is caught inside {r[0].name} (line {int(r[1])}) and not passed on: '
+                                f'{fn.name} goes on to write the metadata file, and the merged directory announces itself as '
+                                'complete although this part is missing or half-written'), line=r[1])
+
+    def below(fn, handed, seen):
+        k = (fn.file, fn.qualname)
+        if k in seen or len(seen) > 6:
+            return
+        seen.add(k)
+        gx = CFG(fn.node)
+        fs, metas = scan(fn, gx, handed)
+        if not metas:
+            return
+        for f, effs in sorted(fs.items()):
+            if f in metas:
+                continue
+            after = any(gx.reaches(m_, f, edge_ok=normal) for m_ in metas)
+            before = any(gx.reaches(f, m_, edge_ok=normal) for m_ in metas)
+            ok = before and not after
+            ctx.ob('C10-R3', fn, f'{effs[0]} happens before the metadata file is written', ok,
+                   'precedes the metadata write on every path and cannot follow it' if ok else
+                   ('this step can run after the metadata file announced the store complete'
+                    if after else 'this step does not lead to the metadata write'), line=gx.nodes[f].line)
+            swallowed = [b for b, lab in gx.succ[f] if lab == 'e' and any(b == m_ or gx.reaches(b, m_) for m_ in metas)]
+            if swallowed:
+                ctx.ob('C10-R3', fn, f'a failure of {effs[0]} cannot be followed by the metadata write', False,
+                       'an exception raised by this step is caught and the merge goes on to write the metadata file: the merged '
+                       'directory announces itself as complete although this part is missing or half-written', line=gx.nodes[f].line)
+        swallow_check(fn, gx, fs, metas)
+        for nid, (c, callee, h2) in sorted(metas.items()):
+            if callee is None:
+                serialises_only(fn, gx.nodes[nid])
+            else:
+                below(callee, h2, seen)
+
+    swallow_check(merge, g, fs_nodes, {meta_node: None})
+    if meta_helper is None:
+        serialises_only(merge, g.nodes[meta_node])
+    else:
+        below(meta_helper, meta_handed, {(merge.file, merge.qualname)})
 
     # R4 relocation by rename only; nothing is deleted or copied once inputs have been moved
     renames = 0
@@ -763,7 +1055,8 @@ def rule_merge(ctx):
         for c in calls_in(fn.node):
             cn = call_name(c)
             if cn in ('os.rename', 'os.replace') or (isinstance(c.func, ast.Attribute) and c.func.attr in ('rename', 'replace')
-                                                    and fn is merge and not isinstance(c.func.value, ast.Constant)
+                                                    and (fn is merge or len(c.args) + len(c.keywords) == 1)   # Path.rename(target)
+                                                    and not isinstance(c.func.value, ast.Constant)
                                                     and cn.split('.')[0] not in ('str', 're')):
                 renames += 1
             kind = 'delete' if cn in DELETES or (isinstance(c.func, ast.Attribute) and c.func.attr in DELETE_METHODS) else \
@@ -773,16 +1066,18 @@ def rule_merge(ctx):
     for fn, c, kind in destructive:
         cn = call_name(c)
         why = 'copy/delete is not atomic: an interruption can lose or duplicate an input'
-        if kind == 'delete' and fn is merge:
-            # is it reachable (handlers included) after an input has been moved?
-            cnode = next((n.id for n in g.nodes if n.stmt is not None and any(c is x for e in _heads(n) if e is not None for x in calls_in(e))), None)
+        if kind == 'delete':
+            # is it reachable (handlers included) after an input has been moved?  (decided in the function that deletes)
+            gx = g if fn is merge else CFG(fn.node)
+            fsx = fs_nodes if fn is merge else scan(fn, gx, False)[0]
+            cnode = next((n.id for n in gx.nodes if n.stmt is not None and any(c is x for e in _heads(n) if e is not None for x in calls_in(e))), None)
             if cnode is None:   # inside a handler body statement
                 st = stmt_of(c)
-                cnode = next(iter(g.nodes_of(st)), None)
-            moved = [f for f, effs in fs_nodes.items() if any('rename' in e or 'replace' in e for e in effs)]
-            if cnode is not None and any(g.reaches(f, cnode) for f in moved):
+                cnode = next(iter(gx.nodes_of(st)), None)
+            moved = [f for f, effs in fsx.items() if any('rename' in e or 'replace' in e for e in effs)]
+            if cnode is not None and any(gx.reaches(f, cnode) for f in moved):
                 why = (f'{cn}(…) can run after the inputs have been moved into the output directory (line '
-                       f'{g.nodes[moved[0]].line}): it deletes the only copy of every input, so an interrupted merge loses all '
+                       f'{int(gx.nodes[moved[0]].line)}): it deletes the only copy of every input, so an interrupted merge loses all '
                        'trajectories and cannot be retried')
         ctx.ob('C10-R4', fn, f'relocation uses {cn}', False, why, line=c.lineno)
     ctx.floor('C10-R4', renames, 1, 'os.rename relocation sites')
